@@ -440,6 +440,27 @@ fn main() {
                 6 => ts_module::<UNs, UNsO>(acc, &values, &ints),
                 7 => ts_module::<NNs, NNsO>(acc, &values, &ints),
                 _ => {
+                    // the serializer is generic over the zone: in a zone whose offset changes (also inside its repeated
+                    // hour) the text written carries the value's own instant and offset
+                    {
+                        use chrono_mc::gfzone::*;
+                        let tz = GAPFOLD_2021;
+                        for u in zone_starts(tz) {
+                            for nano in [0u32, 500_000_000] {
+                                let dt = tz.from_utc_datetime(&DateTime::from_timestamp(u, nano).unwrap().naive_utc());
+                                acc.transitions += 2;
+                                let j = guard(|| serde_json::to_string(&dt).ok().and_then(|s| serde_json::from_str::<DateTime<FixedOffset>>(&s).ok()));
+                                let b = guard(|| bincode::serialize(&dt).ok().and_then(|s| bincode::deserialize::<DateTime<FixedOffset>>(&s).ok()));
+                                let want = Some((dt.naive_utc(), dt.offset().off));
+                                let key = |r: &Result<Option<DateTime<FixedOffset>>, String>| r.as_ref().ok().and_then(|o| o.map(|x| (x.naive_utc(), x.offset().local_minus_utc())));
+                                if key(&j) != want || key(&b) != want {
+                                    acc.violation("DateTime<zone>:serialize", format!("serde_json / bincode text of [{:?} at offset {}] in a zone with a repeated hour, read as DateTime<FixedOffset>", dt.naive_local(), dt.offset().off), format!("{:?}", want), format!("{:?} / {:?}", j, b));
+                                } else {
+                                    acc.hit(JSON_RT);
+                                }
+                            }
+                        }
+                    }
                     for &(s, f) in &b_times(true) {
                         let t: NaiveTime = mk_time(s, f);
                         rt(acc, "NaiveTime", &t, |x| *x);
